@@ -116,6 +116,33 @@ def check_bloom(ctx, P, n, p, rng):
             ctx.count("bloom.counting_checks")
 
 
+def check_bloom_fractional(ctx, P, n, p):
+    """est_elements given as a non-integral number (the constructor accepts any Number > 0): same formulas; if such a filter can be
+    exported at all, its reload must have the geometry of the original"""
+    from probables.exceptions import InitializationError
+
+    sz = refimpl.bloom_sizing(n, p)
+    if sz is None or min(sz[0]) > 200_000:
+        return
+    ms, ks, p32 = sz
+    try:
+        f = P.BloomFilter(n, p)
+    except InitializationError:
+        return
+    where = f"for est_elements={n!r}, rate={p!r}"
+    m, k = f.number_bits, f.number_hashes
+    ctx.check(m in ms and k in ks.get(m, ()), f"geometry is not the documented one {where}", got=(m, k), bits=sorted(ms))
+    for how in ("bytes", "hex"):
+        try:
+            g = P.BloomFilter.frombytes(bytes(f)) if how == "bytes" else P.BloomFilter(hex_string=f.export_hex())
+        except Exception:
+            ctx.count("bloom.fractional_est_export_refused")
+            continue
+        ctx.check((g.number_bits, g.number_hashes, g.bloom_length) == (m, k, f.bloom_length), f"reload via {how} has another geometry {where}",
+                  got=(g.number_bits, g.number_hashes, g.bloom_length), want=(m, k, f.bloom_length))
+    ctx.count("bloom.fractional_est_configs")
+
+
 def wl_bloom_sweep(ctx, rng, case):
     import probables as P
 
@@ -128,6 +155,10 @@ def wl_bloom_sweep(ctx, rng, case):
     case.desc = {"est_elements": n, "n_rates": len(ps), "kind": "bloom"}
     for p in ps:
         check_bloom(ctx, P, n, float(p), rng)
+    if n <= 5000:
+        for frac in (0.5, 0.25, 0.999):
+            check_bloom_fractional(ctx, P, n + frac, float(rng.choice(ps)))
+        check_bloom_fractional(ctx, P, n * 1.25 + 0.125, float(rng.choice(ps)))
     case.op("rates", len(ps))
     case.nontrivial = True
 
@@ -252,5 +283,5 @@ PROP = Prop(
     assumptions=["formulas evaluated in 60-digit decimal arithmetic on the exact values of the float inputs; either neighbour accepted when the exact "
                  "argument of ceil/round is within 1e-12 (relative) of a breakpoint (float noise is ~1e-15; a tolerance-style rounding bug is >= 1e-10)",
                  "filters above 400 000 bits are sized through the class-level sizing routine without allocating the array"],
-    required=["bloom.configs_checked", "bloom.configs_constructed", "bloom.reload_geometry_checks", "cms.configs_checked", "cuckoo.configs_checked"],
+    required=["bloom.configs_checked", "bloom.fractional_est_configs", "bloom.configs_constructed", "bloom.reload_geometry_checks", "cms.configs_checked", "cuckoo.configs_checked"],
 )
